@@ -185,13 +185,35 @@ func ruleST4(c *Ctx) {
 		n++
 		v := resolve(returnedValue(r, 0))
 		ok, how := false, ""
-		if cl, isCall := v.(*ssa.Call); isCall && calleeFullName(&cl.Call) == "path/filepath.Join" {
-			el := variadicElems(cl.Call.Args)
-			if len(el) >= 2 {
-				if s, isC := constString(el[len(el)-1]); isC && s == ".ergo" {
-					ok, how = true, "Join(dir, \".ergo\")"
-				}
+		var isErgoJoin func(x ssa.Value, d int) bool
+		isErgoJoin = func(x ssa.Value, d int) bool {
+			cl, isCall := resolve(x).(*ssa.Call)
+			if !isCall || d > 2 {
+				return false
 			}
+			if calleeFullName(&cl.Call) == "path/filepath.Join" {
+				el := variadicElems(cl.Call.Args)
+				if len(el) >= 2 {
+					if s, isC := constString(el[len(el)-1]); isC && s == ".ergo" {
+						return true
+					}
+				}
+				return false
+			}
+			// a helper that does the joining (storeDirIn(dir) = filepath.Join(dir, dataDirName))
+			if h := calleeOf(&cl.Call); h != nil && c.InModule(h) && h.Blocks != nil {
+				rets := returnsOf(h)
+				for _, hr := range rets {
+					if len(hr.Results) != 1 || !isErgoJoin(returnedValue(hr, 0), d+1) {
+						return false
+					}
+				}
+				return len(rets) > 0
+			}
+			return false
+		}
+		if isErgoJoin(v, 0) {
+			ok, how = true, "Join(dir, \".ergo\")"
 		}
 		if !ok {
 			vc := c.canon(v)
